@@ -688,3 +688,93 @@ package webrtc
 //@ requires o != nil && o.ops != nil && ghost(qhead) <= ghost(qtail) && ghost(qtail) < 1<<62
 //@ ensures (op == nil || old(o.isClosed)) ==> ghost(qtail) == old(ghost(qtail)) && ghost(qspawns) == old(ghost(qspawns))
 //@ ensures op != nil && !old(o.isClosed) ==> ghost(qtail) == old(ghost(qtail)) + 1 && o.busyCh != nil
+
+// ---------------------------------------------------------------- C24 (sequential protocol of the end-of-gathering marker)
+//@ func specPoolActive
+//@ pure
+//@ nosafety
+
+// The application's OnICECandidate handler as called from the gatherer: ghost counters
+// nilCands (nil markers delivered) and cands (candidates delivered).
+//@ func localfn onLocalCandidateHandler
+//@ trusted
+//@ ghost nilCands += ite(arg0 == nil, 1, 0)
+//@ ghost cands += ite(arg0 != nil, 1, 0)
+//@ modifies nothing
+//@ func localfn onGatheringCompleteHandler
+//@ trusted
+//@ modifies nothing
+//@ func newICECandidateFromICE
+//@ trusted
+//@ modifies nothing
+//@ func atomicLoadICEGathererState
+//@ props C24
+//@ requires state != nil
+//@ ensures result == *state
+//@ modifies nothing
+//@ func atomicStoreICEGathererState
+//@ props C24
+//@ requires state != nil
+//@ ensures *state == newState
+//@ modifies *state
+//@ func (*ICEGatherer).State
+//@ props C24
+//@ requires g != nil
+//@ ensures result == g.state
+//@ modifies nothing
+//@ func (*ICEGatherer).setState
+//@ props C24
+//@ requires g != nil
+//@ ensures g.state == s
+//@ ensures g.candidatePool == old(g.candidatePool) && len(g.candidatePool) == old(len(g.candidatePool)) && g.iceCandidatePoolSize == old(g.iceCandidatePoolSize)
+//@ ensures ghost(nilCands) == old(ghost(nilCands)) && ghost(cands) == old(ghost(cands))
+
+//@ field ICEGatherer.candidatePool props C24 writers (*ICEGatherer).flushCandidates, (*ICEGatherer).Gather$1
+//@ field ICEGatherer.iceCandidatePoolSize props C24 writers (*ICEGatherer).flushCandidates
+//@ field ICEGatherer.state props C24 writers (*ICEGatherer).setState
+//@ field ICEGatherer.log props C24 writers (*API).NewICEGatherer
+
+// Protocol invariant P (holds between calls): at most one nil marker has been delivered;
+// it has been delivered exactly when gathering is complete and the pool is not active.
+// flushCandidates must preserve P: it delivers every pooled candidate once, deactivates
+// the pool and delivers the nil marker iff gathering completed while the pool was active.
+//@ func (*ICEGatherer).flushCandidates
+//@ props C24
+//@ requires g != nil && g.log != nil
+//@ requires ghost(cands) < 1<<62
+//@ requires ghost(nilCands) <= 1 && ((ghost(nilCands) == 1) == (g.state == ICEGathererStateComplete && !specPoolActive(g)))
+//@ requires !specPoolActive(g) ==> len(g.candidatePool) == 0
+//@ atcall localfn onLocalCandidateHandler assert ghost(nilCands) == 0
+//@ observe poolWasActive := old(specPoolActive(g))
+//@ observe stateBefore := old(g.state)
+//@ observe nilBefore := old(ghost(nilCands))
+//@ ensures ghost(nilCands) <= 1
+//@ ensures (ghost(nilCands) == 1) == (g.state == ICEGathererStateComplete && !specPoolActive(g))
+//@ ensures !specPoolActive(g)
+//@ ensures ghost(cands) <= old(ghost(cands)) + uint64(old(len(g.candidatePool)))
+//@ loop 0 invariant ghost(nilCands) == old(ghost(nilCands))
+//@ loop 0 invariant ghost(cands) <= old(ghost(cands)) + uint64(rangeindex + 1)
+//@ loop 0 invariant rangeindex < len(candidates) && len(candidates) == old(len(g.candidatePool))
+//@ loop 0 invariant g.state == old(g.state)
+//@ loop 0 invariant g.candidatePool == nil && g.iceCandidatePoolSize == 0
+
+// The agent's OnCandidate callback. Assumed of the ice agent: the nil (end of gathering)
+// call comes once and last, i.e. the callback is never entered after the state became
+// complete. Under that assumption the callback preserves P, delivers a candidate only
+// before any nil marker, and pools a candidate exactly when the pool is active.
+//@ func (*ICEGatherer).Gather$1
+//@ props C24
+//@ requires g != nil && g.log != nil
+//@ requires g.state != ICEGathererStateComplete
+//@ requires ghost(nilCands) <= 1 && ((ghost(nilCands) == 1) == (g.state == ICEGathererStateComplete && !specPoolActive(g)))
+//@ requires !specPoolActive(g) ==> len(g.candidatePool) == 0
+//@ requires ghost(cands) < 1<<62
+//@ atcall localfn onLocalCandidateHandler assert ghost(nilCands) == 0
+//@ ensures ghost(nilCands) <= 1
+//@ ensures (ghost(nilCands) == 1) == (g.state == ICEGathererStateComplete && !specPoolActive(g))
+//@ ensures !specPoolActive(g) ==> len(g.candidatePool) == 0
+//@ ensures specPoolActive(g) == old(specPoolActive(g))
+//@ ensures candidate == nil ==> g.state == ICEGathererStateComplete && ghost(cands) == old(ghost(cands))
+//@ ensures candidate != nil ==> g.state == old(g.state) && ghost(nilCands) == old(ghost(nilCands))
+//@ ensures candidate != nil && old(specPoolActive(g)) ==> len(g.candidatePool) == old(len(g.candidatePool)) + 1 && ghost(cands) == old(ghost(cands))
+//@ ensures candidate != nil && !old(specPoolActive(g)) ==> ghost(cands) <= old(ghost(cands)) + 1
